@@ -2,71 +2,15 @@
 //verif:kit conn
 package client
 
-// C18 — server authentication (accept verification), client registration
-// signing, and handshake gating of outgoing traffic.
+// C18 — server authentication: accept verification.
 
 import (
-	"bytes"
 	"context"
-	"encoding/hex"
-	"math/big"
-	"net"
-	"time"
 
-	"github.com/pkg/errors"
 	"github.com/tokenized/pkg/bitcoin"
 
 	"github.com/tokenized/spynode/internal/verifrt"
 )
-
-var c18Keys = []string{
-	"0279be667ef9dcbbac55a06295ce870b07029bfcdb2dce28d959f2815b16f81798",
-	"02c6047f9441ed7d6d3045406e95c07cd85c778e4b8cef3ca7abac09b95c709ee5",
-}
-
-func c18PubKey(i int) bitcoin.PublicKey {
-	b, _ := hex.DecodeString(c18Keys[i])
-	var k bitcoin.PublicKey
-	if err := k.SetBytes(b); err != nil {
-		verifrt.Assume(false)
-	}
-	return k
-}
-
-func c18Sig(name string) bitcoin.Signature {
-	var s bitcoin.Signature
-	rb := verifrt.Bytes(name+".R", 2)
-	verifrt.Assume(rb[0] != 0)
-	s.R.SetBytes(rb)
-	sb := verifrt.Bytes(name+".S", 2)
-	verifrt.Assume(sb[0] != 0)
-	s.S.SetBytes(sb)
-	return s
-}
-
-func c18SigEq(a, b *bitcoin.Signature) bool {
-	return verifrt.And(verifrt.BytesEq(a.R.Bytes(), b.R.Bytes()), verifrt.BytesEq(a.S.Bytes(), b.S.Bytes()))
-}
-
-func c18NewClient(connType ConnectionType) *RemoteClient {
-	c := &RemoteClient{
-		addRequestsChannel:     make(chan *request, 100),
-		removeRequestsChannel:  make(chan *request, 100),
-		requestResponseChannel: make(chan *requestResponse, 100),
-	}
-	c.handlerChannel = make(chan *Message, 10)
-	c.sendChannel = make(chan *sendMessageRequest, 10)
-	c.messageTimeout.Store(100 * time.Millisecond)
-	c.requestTimeout.Store(100 * time.Millisecond)
-	c.handshakeTimeout.Store(100 * time.Millisecond)
-	c.dialTimeout.Store(500 * time.Millisecond)
-	c.accepted.Store(false)
-	c.handshakeComplete.Store(false)
-	c.isReconnecting.Store(false)
-	c.handshakeCompleteChannel.Store(make(chan interface{}, 5))
-	c.config.Store(Config{ConnectionType: connType})
-	return c
-}
 
 // VerifHarness_C18_accept: a forged or honest accept message against the
 // session derived for this connection.
@@ -182,234 +126,3 @@ func VerifHarness_C18_accept() {
 	verifrt.Reach("C18.accept.done")
 }
 
-// VerifHarness_C18_register: the bytes connect() writes decode to a Register
-// that is validly signed by the configured client key over its contents and
-// this connection's fresh hash.
-func VerifHarness_C18_register() {
-	ctx := context.Background()
-	connType := ConnectionTypeFull
-	if verifrt.Choose("connection-type", 2) == 1 {
-		connType = ConnectionTypeControl
-	}
-	c := c18NewClient(connType)
-	cfg := Config{ConnectionType: connType, StartBlockHeight: verifrt.U32("start-height")}
-	var written []byte
-	var conn net.Conn
-	var err error
-	if verifrt.Symbolic() {
-		kb := verifrt.Bytes("client.key", 32)
-		verifrt.Assume(kb[0] != 0)
-		var kv big.Int
-		kv.SetBytes(kb)
-		cfg.ClientKey = bitcoin.KeyFromValue(kv, bitcoin.MainNet)
-		cfg.ServerKey = c18PubKey(0)
-		cfg.ServerAddress = "mem"
-		c.config.Store(cfg)
-		vc := newVkConn()
-		verifrt.SetDialConn(net.Conn(vc))
-		conn, err = c.connect(ctx)
-		written = vc.all()
-	} else {
-		ck, _ := bitcoin.GenerateKey(bitcoin.MainNet)
-		sk, _ := bitcoin.GenerateKey(bitcoin.MainNet)
-		cfg.ClientKey = ck
-		cfg.ServerKey = sk.PublicKey()
-		ln, lerr := net.Listen("tcp", "127.0.0.1:0")
-		if lerr != nil {
-			verifrt.Assume(false)
-		}
-		defer ln.Close()
-		cfg.ServerAddress = ln.Addr().String()
-		c.config.Store(cfg)
-		got := make(chan []byte, 1)
-		go func() {
-			sc, aerr := ln.Accept()
-			if aerr != nil {
-				got <- nil
-				return
-			}
-			sc.SetReadDeadline(time.Now().Add(300 * time.Millisecond))
-			var all []byte
-			buf := make([]byte, 4096)
-			for {
-				n, rerr := sc.Read(buf)
-				all = append(all, buf[:n]...)
-				if rerr != nil {
-					break
-				}
-			}
-			got <- all
-			sc.Close()
-		}()
-		conn, err = c.connect(ctx)
-		written = <-got
-	}
-	verifrt.Note("connect: err=%v", err)
-	verifrt.Sig("connect", "err")
-	verifrt.Assert(err == nil && conn != nil, "C18.register.connect-ok")
-	if err != nil {
-		return
-	}
-	var msg Message
-	derr := msg.Deserialize(bytes.NewReader(written))
-	verifrt.Note("decode of %d written bytes: %v", len(written), derr)
-	verifrt.Sig("connect", "decode")
-	verifrt.Assert(derr == nil, "C18.register.first-bytes-are-a-message")
-	if derr != nil {
-		return
-	}
-	r, ok := msg.Payload.(*Register)
-	verifrt.Sig("connect", "kind")
-	verifrt.Assert(ok, "C18.register.first-message-is-register")
-	if !ok {
-		return
-	}
-	pub := cfg.ClientKey.PublicKey()
-	verifrt.Sig("register", "key")
-	verifrt.Assert(verifrt.BytesEq(r.Key.Bytes(), pub.Bytes()), "C18.register.carries-client-public-key")
-	verifrt.Sig("register", "hash")
-	verifrt.Assert(verifrt.BytesEq(r.Hash[:], c.hash[:]), "C18.register.carries-this-connections-hash")
-	verifrt.Sig("register", "fields")
-	verifrt.Assert(r.StartBlockHeight == cfg.StartBlockHeight && r.ConnectionType == connType && r.Version == RemoteClientVersion, "C18.register.fields")
-	sh, serr := r.SigHash()
-	verifrt.Assert(serr == nil, "C18.register.sighash-ok")
-	verifrt.Sig("register", "signature")
-	verifrt.Assert(r.Signature.Verify(*sh, pub), "C18.register.validly-signed-by-client-key")
-	verifrt.Reach("C18.register.done")
-}
-
-// VerifHarness_C18_gating: nothing but handshake messages is written before
-// the handshake completes; acked implies written; the unsent message is
-// carried to the next connection.
-func VerifHarness_C18_gating() {
-	ctx := context.Background()
-	nQueued := verifrt.Choose("queued", 3)
-	signalled := verifrt.Choose("handshake-signalled", 2) == 1
-	carried := verifrt.Choose("carried", 2) == 1
-	conn := newVkConn()
-	conn.FailAt = verifrt.Choose("fail-at-write", 8) - 1 // -1: never
-	handshake := make(chan interface{}, 5)
-	if signalled {
-		handshake <- nil
-	}
-	interrupt := make(chan interface{})
-	sendChannel := make(chan *sendMessageRequest, 10)
-	type pending struct {
-		req *sendMessageRequest
-		ack chan error
-		enc []byte
-	}
-	mk := func(i int) pending {
-		ack := make(chan error, 1)
-		m := &Message{Payload: &Ping{TimeStamp: uint64(1000 + i)}}
-		var b bytes.Buffer
-		m.Serialize(&b)
-		return pending{&sendMessageRequest{msg: m, response: ack}, ack, b.Bytes()}
-	}
-	var all []pending
-	var first *sendMessageRequest
-	if carried {
-		p := mk(0)
-		all = append(all, p)
-		first = p.req
-	}
-	for i := 0; i < nQueued; i++ {
-		p := mk(1 + i)
-		all = append(all, p)
-		sendChannel <- p.req
-	}
-	var ret *sendMessageRequest
-	var err error
-	run := func() {
-		ret, err = sendMessages(ctx, net.Conn(conn), handshake, interrupt, sendChannel, 50*time.Millisecond, first)
-	}
-	if verifrt.Symbolic() {
-		verifrt.RunUntilBlocked(run)
-	} else {
-		done := make(chan bool, 1)
-		go func() { run(); done <- true }()
-		select {
-		case <-done:
-		case <-time.After(200 * time.Millisecond):
-			close(interrupt)
-			<-done
-			ret, err = nil, nil
-		}
-	}
-	written := conn.all()
-	if !signalled {
-		verifrt.Sig("sendMessages", "before-handshake")
-		verifrt.Assert(len(written) == 0, "C18.gate.nothing-written-before-handshake")
-		verifrt.Sig("sendMessages", "timeout")
-		verifrt.Assert(errors.Cause(err) == ErrTimeout, "C18.gate.handshake-timeout-error")
-		verifrt.Sig("sendMessages", "carried")
-		verifrt.Assert(ret == first, "C18.gate.carried-message-is-kept")
-		for _, p := range all {
-			verifrt.Sig("sendMessages", "ack-before-handshake")
-			verifrt.Assert(len(p.ack) == 0, "C18.gate.nothing-acked-before-handshake")
-		}
-		verifrt.Reach("C18.gate.not-signalled")
-		verifrt.Reach("C18.gating.done")
-		return
-	}
-	// acked => fully written, in order; the first un-acked message is returned on failure
-	off := 0
-	failed := false
-	for i, p := range all {
-		acked := len(p.ack) == 1
-		if acked {
-			verifrt.Sig("sendMessages", "ack-after-failure")
-			verifrt.Assert(!failed, "C18.gate.no-ack-after-a-failed-write")
-			verifrt.Sig("sendMessages", "acked-not-written")
-			ok := off+len(p.enc) <= len(written) && bytes.Equal(written[off:off+len(p.enc)], p.enc)
-			verifrt.Assert(ok, "C18.gate.acked-implies-written-in-order")
-			off += len(p.enc)
-		} else if !failed {
-			failed = true
-			verifrt.Sig("sendMessages", "returned")
-			verifrt.Assert(err != nil && ret == p.req, "C18.gate.unsent-message-is-carried-to-next-connection")
-			verifrt.Reach("C18.gate.write-failed")
-		}
-		_ = i
-	}
-	if !failed {
-		verifrt.Sig("sendMessages", "all-sent")
-		verifrt.Assert(len(written) == off, "C18.gate.only-queued-messages-written")
-		verifrt.Reach("C18.gate.all-sent")
-	}
-	verifrt.Reach("C18.gating.done")
-}
-
-// VerifHarness_C18_direct: sendMessage before the handshake completes writes
-// only handshake-type messages to the connection.
-func VerifHarness_C18_direct() {
-	ctx := context.Background()
-	c := c18NewClient(ConnectionTypeFull)
-	conn := newVkConn()
-	c.conn.Store(net.Conn(conn))
-	payloads := []MessagePayload{
-		&Ready{NextMessageID: 5}, &SubscribeHeaders{}, &SubscribeContracts{}, &UnsubscribeHeaders{},
-		&SubscribeTx{}, &SubscribePushData{}, &SubscribeOutputs{},
-		&GetTx{}, &GetHeaders{}, &GetChainTip{}, &Ping{}, &ReprocessTx{}, &GetFeeQuotes{}, &MarkHeaderInvalid{},
-	}
-	p := payloads[verifrt.Choose("payload", len(payloads))]
-	var err error
-	if verifrt.Symbolic() {
-		err = c.sendMessage(ctx, &Message{Payload: p}, 50*time.Millisecond)
-	} else {
-		err = c.sendMessage(ctx, &Message{Payload: p}, 50*time.Millisecond)
-	}
-	written := conn.all()
-	if IsHandshakeType(p.Type()) {
-		verifrt.Sig("sendMessage", "handshake-type")
-		verifrt.Assert(err == nil && len(written) > 0, "C18.direct.handshake-messages-go-out")
-		verifrt.Reach("C18.direct.handshake-type")
-	} else {
-		verifrt.Sig("sendMessage", "early-write")
-		verifrt.Assert(len(written) == 0, "C18.direct.no-other-request-written-before-handshake")
-		verifrt.Sig("sendMessage", "reported-sent")
-		verifrt.Assert(err != nil, "C18.direct.never-reported-sent-without-being-written")
-		verifrt.Reach("C18.direct.other-type")
-	}
-	verifrt.Reach("C18.direct.done")
-}
